@@ -42,6 +42,7 @@ FINDING_LITERAL = "C02-literal-pyeq"
 FINDING_DICTKEY = "C02-dict-key-unchecked"
 FINDING_SETELEM = "C02-set-element-becomes-unhashable"
 FINDING_ENUMRETRY = "C02-enum-unhashable-no-retry"
+FINDING_SENTINEL = "C02-string-sentinel-default"
 
 
 # ---------------------------------------------------------------- enum pool
@@ -1029,6 +1030,140 @@ def check_perm(ctx: Ctx, run: Run, desc, variants, channel, inp, origin, obs):
             return
 
 
+# ---------------------------------------------------------------- arguments that have a default
+# (type, default, extra values).  Conforming defaults and sentinel defaults that do not conform; the values tried are
+# the default itself, values equal to it by Python == but of another kind (True / 1 / 1.0, False / 0 / 0.0, 3 / 3.0),
+# other values, and text forms - through parse_object, a config text (parse_string) and argv.
+DEFAULT_CASES = [
+    ("int", 1, []), ("int", 0, []), ("int", 3, [{"f": "3.0"}]), ("int", "auto", ["auto", "other"]), ("int", -1, []),
+    ("float", {"f": "1.0"}, []), ("float", {"f": "0.0"}, []), ("float", 1, []), ("float", "none", ["none"]),
+    ("bool", True, []), ("bool", False, []), ("bool", 1, []),
+    ("str", "x", ["x", "1", "true"]), ("str", "1", [1, "1"]), ("str", 1, [1]),
+    ({"u": ["int", "none"]}, 0, []), ({"u": ["int", "none"]}, 1, []), ({"u": ["int", {"l": "int"}]}, 1, [[1]]),
+    ({"u": ["int", "str"]}, 1, ["1"]), ({"u": ["bool", "str"]}, "off", ["off", "on"]),
+    ({"l": "int"}, [1], [[1], [True], [{"f": "1.0"}]]), ({"lit": [1, 2]}, 1, []), ({"lit": ["a", "b"]}, "c", ["c", "a"]),
+    ({"t": ["int", "str"]}, {"t": [1, "a"]}, [[1, "a"]]), ({"d": ["str", "int"]}, {"d": [["a", 1]]}, [{"d": [["a", 1]]}]),
+    ({"tv": "float"}, "auto", ["auto", [1]]),
+]
+EQ_POOL = [True, False, 0, 1, {"f": "0.0"}, {"f": "1.0"}, 2, {"f": "2.5"}, "1", "true", "0", "1.0", "abc", None, -1, {"f": "-1.0"}]
+
+
+def default_parser(desc, dflt):
+    from jsonargparse import ArgumentParser
+
+    p = ArgumentParser(exit_on_error=False, default_env=False)
+    p.add_argument("--k", type=to_typing(desc), default=to_py(dflt))
+    return p
+
+
+def real_with_default(p, channel, inp):
+    from jsonargparse import ArgumentError
+
+    try:
+        if channel == "obj":
+            cfg = p.parse_object({"k": copy.deepcopy(to_py(inp))})
+        elif channel == "cfg":
+            cfg = p.parse_string(json.dumps({"k": to_py(inp)}))
+        else:
+            cfg = p.parse_args(["--k=" + inp])
+        return {"ok": canon(enc(cfg.k))}
+    except ArgumentError:
+        return {"err": "reject"}
+    except Exception as ex:  # noqa: BLE001
+        return {"err": "crash:" + type(ex).__name__}
+
+
+def defaults_family(ctx: Ctx):
+    """arguments WITH defaults: correspondence with the model (`parseObjD` / `parseArgD`) and soundness judged by Lean"""
+    items, metas = [], []
+    for desc, dflt, extra in DEFAULT_CASES:
+        try:
+            p = default_parser(desc, dflt)
+        except Exception as ex:  # noqa: BLE001
+            ctx.violation("an argument with this default cannot be declared", {"kind": "default-declare", "desc": desc, "default": dflt, "got": type(ex).__name__})
+            continue
+        # a default that the parser itself refuses (parse_object / parse_string re-check the defaults, argparse converts
+        # string defaults) makes every parse of that channel fail, whatever the value: outside the per-value model
+        from jsonargparse import ArgumentError
+        usable = set()
+        for chk, fn in (("obj", lambda: p.parse_object({})), ("cfg", lambda: p.parse_string("{}")), ("arg", lambda: p.parse_args([]))):
+            try:
+                fn()
+                usable.add(chk)
+            except ArgumentError:
+                ctx.hist("defaults_family", chk + ":default refused by the parser itself")
+        values = [dflt] + extra + EQ_POOL
+        seen = set()
+        for v in values:
+            chans = ["obj"] + (["cfg"] if to_text(v) is not None or v is None or isinstance(v, (bool, int)) else []) + (["arg"] if isinstance(v, str) else [])
+            if not isinstance(v, str):
+                t = to_text(v)
+                if t is not None and not isinstance(v, (list, dict)) or isinstance(v, list):
+                    chans = chans + ["arg:" + (t if t is not None else "")] if t is not None else chans
+            for ch in chans:
+                inp = v
+                if ch.startswith("arg:"):
+                    ch, inp = "arg", ch[4:]
+                if ch == "cfg" and isinstance(v, dict) and ("t" in v or "s" in v or "e" in v):
+                    continue
+                key = jdump([ch, inp])
+                if key in seen or ch not in usable:
+                    continue
+                seen.add(key)
+                try:
+                    if ch == "cfg":
+                        json.dumps(to_py(inp))
+                    real = real_with_default(p, ch, inp)
+                    mch = "arg" if ch == "arg" else "obj"
+                    items.append({"t": desc, "v": inp, "dflt": dflt, "o": build_tables(inp, dflt), "want": ["parseArgD" if mch == "arg" else "parseObjD"]})
+                    metas.append((desc, dflt, ch, inp, real))
+                    ctx.count()
+                    if accepted(real) and real["ok"] is not None:
+                        items.append(conf_item(desc, real["ok"]))
+                        metas.append(None)
+                except (Unencodable, TypeError, ValueError):
+                    continue
+    res = run_driver(ctx, items) or []
+    bad = []
+    i = 0
+    while i < len(res):
+        m = metas[i]
+        r = res[i]
+        conf_out = None
+        if i + 1 < len(res) and metas[i + 1] is None:
+            conf_out = res[i + 1]
+            i += 1
+        i += 1
+        desc, dflt, ch, inp, real = m
+        if "miss" in r or "bad-input" in r:
+            raise MachineryError("driver could not evaluate default case %s: %s" % (jdump(m[:4])[:300], jdump(r)[:200]))
+        rr = r.get("parseArgD") or r.get("parseObjD")
+        mine = {"ok": canon(rr["ok"])} if "ok" in rr else {"err": "reject"}
+        ctx.hist("defaults_family", ch + (":accept" if accepted(real) else ":reject"))
+        if accepted(real):
+            ctx.nontrivial(jdump(["default", desc, dflt, ch, inp]))
+        if jdump(mine) != jdump(real):
+            bad.append({"desc": desc, "default": dflt, "channel": ch, "input": inp, "real": real, "model": mine})
+        if conf_out is not None and not conf_out["conf"]:
+            rep = {"kind": "default-sound", "desc": desc, "default": dflt, "channel": ch, "input": inp, "result": real["ok"]}
+            if conf_out["confLit"] and ctx.is_open(FINDING_LITERAL):
+                ctx.known(FINDING_LITERAL, "Literal membership by == (argument with a default)")
+            elif isinstance(real["ok"], str) and isinstance(dflt, str) and real["ok"] == dflt and isinstance(inp, str) and ctx.is_open(FINDING_SENTINEL):
+                ctx.known(FINDING_SENTINEL, "text equal to the non-conforming string default is returned: %s default %r" % (jdump(desc)[:60], dflt))
+            else:
+                ctx.violation("accepted value does not conform to the declared type (argument with a default)", rep)
+    bad.sort(key=lambda b: len(jdump(b)))
+    for b in bad[:3]:
+        ctx.tie_break("correspondence E3 (adapter model with a default vs jsonargparse) disagrees", jdump(b)[:1800])
+    ctx.extra["defaults_family_cases"] = len([m for m in metas if m is not None])
+    ctx.extra["defaults_family_disagreements"] = len(bad)
+    import os
+    if os.environ.get("C02_DEBUG"):
+        with open(os.environ["C02_DEBUG"] + ".dflt", "w") as f:
+            for b in bad:
+                f.write(jdump(b) + "\n")
+
+
 # ---------------------------------------------------------------- the check
 def corpus_cases(ctx):
     from ..lib import corpus as corpus_mod
@@ -1173,7 +1308,9 @@ def run(ctx: Ctx):
                 "the Lean validator, and repeated under every permutation of every Union; non-trivial = accepted by the real parser; distinct by "
                 "canonical JSON of (type, channel, input)")
     ctx.assumptions = [
-        "one optional argument without nargs/default/enable_path; parser_mode yaml; values inside the wire grammar (str/int dict keys, |int| < 10^400)",
+        "arguments with a default: a fixed family (conforming and sentinel defaults; values equal to the default by == but of another kind) "
+        "through parse_object / config text / argv, against the model's `checkTypeD` (the default early-out of adapt_typehints)",
+        "otherwise one optional argument without nargs/default/enable_path; parser_mode yaml; values inside the wire grammar (str/int dict keys, |int| < 10^400)",
         "float(i) for an int beyond the float range: the oracle answers 'overflow' and the model rejects (ValueError, commit 31f099f)",
         "PyYAML + yaml_load/load_value, int(str) for dict keys and repr(float(int)) for |int| >= 10^16 are oracles of the model (supplied per case)",
         "dict keys contain no '.', values contain no 'class_path' key and no '__path__' key",
@@ -1225,6 +1362,8 @@ def run(ctx: Ctx):
     for c in gen[:4]:
         ctx.sample({"type": c[0], "channel": c[1], "input": c[2], "origin": c[3]})
 
+    defaults_family(ctx)
+
     # ---- findings ---------------------------------------------------------------
     ctx.replay_fixed_demos()
     for f in ctx.open_findings():
@@ -1248,6 +1387,14 @@ def replay_case(ctx: Ctx, run: Run, rp, quiet=False):
     say = (lambda *a: None) if quiet else print
     if kind == "demo":
         return None
+    if kind == "default-sound":
+        real = real_with_default(default_parser(desc, rp["default"]), ch, inp)
+        say("real:", jdump(real))
+        if not accepted(real) or real["ok"] is None:
+            return False
+        c = lean_conf(ctx, desc, real["ok"])
+        say("Lean validator on the result:", c)
+        return not c["conf"]
     if kind == "declare":
         obs = real_parse(desc, "obj", None)
         say("real:", jdump(obs))
